@@ -43,3 +43,16 @@ func (n *LocalNode) VerifFingers() []chord.VNode {
 }
 
 func (n *LocalNode) VerifKV() chord.KVProvider { return n.kv }
+
+// VerifNodeState exposes the unexported lifecycle state machine (C13).
+type VerifNodeState struct{ s *nodeState }
+
+func VerifNewNodeState(initial chord.State) *VerifNodeState {
+	return &VerifNodeState{s: newNodeState(initial)}
+}
+func (v *VerifNodeState) Transition(exp, nxt chord.State) (chord.State, bool) {
+	return v.s.Transition(exp, nxt)
+}
+func (v *VerifNodeState) Set(val chord.State)      { v.s.Set(val) }
+func (v *VerifNodeState) Get() chord.State         { return v.s.Get() }
+func (v *VerifNodeState) History() []chord.State   { return v.s.History() }
